@@ -204,8 +204,6 @@ def run(ctx) -> None:
     ctx.check("R4", ok, "_is_cal_gt iterates version.V2CalendarInfo._fields", "v2version._is_cal_gt: does not compare all calendar fields in declared order", "", loc=gt.loc())
     from checks.c05 import none_filter_rule
     none_filter_rule(ctx, "v2version", "R4")
-    rets = [n for n in walk_no_nested(gt.node) if isinstance(n, ast.Return)]
-    ctx.check("R4", len(rets) == 1 and unparse(rets[0].value) == "lvals > rvals", "_is_cal_gt returns lvals > rvals", "v2version._is_cal_gt: comparison is not `left > right`", unparse(rets[0]) if rets else "", loc=gt.loc())
     order = prog.klass("version.V2CalendarInfo").fields
     idx = {f: i for i, f in enumerate(order)}
     ctx.require(all(f in idx for f in ("year_y", "year_g", "quarter", "month", "dom", "doy", "week_w", "week_u", "week_v")), "V2CalendarInfo fields changed")
